@@ -298,9 +298,9 @@ Definition next_fits (c : bctx) (st : bstate) (n : loc * Z) : bool :=
   ((nsel st n + 1) * bc_max_total c <=? bc_sel_total c * snd n)%Z.
 
 (* maybeMoveOneVolume's two tests (shared with evacuate): [sel_tgt] = emptyNode.selectedVolumes *)
+(* (repaired: isGoodMove is consulted for every replication setting, 000 included) *)
 Definition movable (w : world) (sel_tgt : list vol) (v : vol) (src tgt : loc) : bool :=
-  (if (0 <? v_rp v)%N
-   then is_good_move (rp_of_byte (v_rp v)) (locs (w_reps w (v_id v))) src tgt else true) &&
+  is_good_move (rp_of_byte (v_rp v)) (locs (w_reps w (v_id v))) src tgt &&
   negb (existsb (fun x => (v_id x =? v_id v)%N) sel_tgt).
 
 Definition bmovable (st : bstate) (v : vol) (src tgt : loc) : bool :=
@@ -503,32 +503,39 @@ Fixpoint pick_from (best : replica) (rs : list replica) : replica :=
   end.
 
 (* fixOneUnderReplicatedVolume: allLocations sorted by free slots descending (sort.Slice),
-   the first with fn(dst) > 0 && satisfyReplicaPlacement gets the copy.  [replicas] and the
-   free counts are those of the snapshot: the only bookkeeping after a copy is
-   FreeVolumeCount--, a field neither fn nor keepDataNodesSorted reads. *)
-Definition fix_dst_ok (s : snapshot) (rs : list replica) (src : replica) (n : node) : bool :=
-  (0 <? cap_free n (v_dt (r_info src)))%Z &&
+   the first with fn(dst) > 0 && satisfyReplicaPlacement gets the copy.  [replicas] are those
+   of the snapshot (each volume is handled once); the free counts are MaxVolumeCount -
+   VolumeCount with VolumeCount++ for every copy planned so far in this run ([planned],
+   repaired: formerly FreeVolumeCount--, a field nobody reads). *)
+Definition fix_free (planned : N -> N -> Z) (n : node) (dt : N) : Z :=
+  (cap_free n dt - planned (n_id n) dt)%Z.
+
+Definition fix_dst_ok (planned : N -> N -> Z) (rs : list replica) (src : replica) (n : node) : bool :=
+  (0 <? fix_free planned n (v_dt (r_info src)))%Z &&
   satisfy (rp_of_byte (v_rp (r_info src))) (locs rs) (n_loc n).
 
-Definition fix_copy_ok (s : snapshot) (vid from to : N) : bool :=
-  match reps_of s vid with
-  | [] => false
-  | r0 :: rs' =>
-      let rs := r0 :: rs' in
-      let src := pick_from r0 rs in
+Definition fix_src (s : snapshot) (vid : N) : option replica :=
+  match reps_of s vid with [] => None | r0 :: rs' => Some (pick_from r0 (r0 :: rs')) end.
+
+Definition fix_copy_ok (s : snapshot) (planned : N -> N -> Z) (vid from to : N) : bool :=
+  match fix_src s vid with
+  | None => false
+  | Some src =>
+      let rs := reps_of s vid in
+      let dt := v_dt (r_info src) in
       (l_node (r_loc src) =? from)%N &&
       match find_node s to with
       | None => false
       | Some t =>
-          fix_dst_ok s rs src t &&
-          forallb (fun n => negb (cap_free t (v_dt (r_info src)) <? cap_free n (v_dt (r_info src)))%Z ||
-                            negb (fix_dst_ok s rs src n)) s
+          fix_dst_ok planned rs src t &&
+          forallb (fun n => negb (fix_free planned t dt <? fix_free planned n dt)%Z ||
+                            negb (fix_dst_ok planned rs src n)) s
       end
   end.
-Definition fix_noplace_ok (s : snapshot) (vid : N) : bool :=
-  match reps_of s vid with
-  | [] => false
-  | r0 :: rs' => forallb (fun n => negb (fix_dst_ok s (r0 :: rs') (pick_from r0 (r0 :: rs')) n)) s
+Definition fix_noplace_ok (s : snapshot) (planned : N -> N -> Z) (vid : N) : bool :=
+  match fix_src s vid with
+  | None => false
+  | Some src => forallb (fun n => negb (fix_dst_ok planned (reps_of s vid) src n)) s
   end.
 
 Fixpoint remove_N (x : N) (l : list N) : list N :=
@@ -538,23 +545,24 @@ Definition mem_N (x : N) (l : list N) : bool := existsb (N.eqb x) l.
 Definition fev_vid (e : fevent) : N :=
   match e with FOver v | FDelete v _ | FCopy v _ _ | FNoPlace v => v end.
 
-(* fixUnderReplicatedVolumes: for each under-replicated vid (map order), retry+1 times
-   fixOneUnderReplicatedVolume (`continue` after success repeats it) *)
-Fixpoint fix_under_run (s : snapshot) (retry : nat) (pending : list N) (cur : option (N * nat))
+(* fixUnderReplicatedVolumes: for each under-replicated vid (map order)
+   fixOneUnderReplicatedVolume, retried only when it returns an error (repaired: `break`
+   after success, formerly `continue`).  Errors come from the copy RPC only, so without
+   RPC failures every volume is handled exactly once whatever -retry says. *)
+Fixpoint fix_under_run (s : snapshot) (planned : N -> N -> Z) (pending : list N)
   (evs : list fevent) : bool :=
   match evs with
-  | [] => match pending, cur with [], None | [], Some (_, 0) => true | _, _ => false end
-  | e :: evs' =>
-      let ok := match e with
-                | FCopy vid from to => fix_copy_ok s vid from to
-                | FNoPlace vid => fix_noplace_ok s vid
-                | _ => false end in
-      ok &&
-      match cur with
-      | Some (v, S k) => (fev_vid e =? v)%N && fix_under_run s retry pending (Some (v, k)) evs'
-      | _ => mem_N (fev_vid e) pending &&
-             fix_under_run s retry (remove_N (fev_vid e) pending) (Some (fev_vid e, retry)) evs'
-      end
+  | [] => match pending with [] => true | _ => false end
+  | FCopy vid from to :: evs' =>
+      mem_N vid pending && fix_copy_ok s planned vid from to &&
+      fix_under_run s
+        (match fix_src s vid with
+         | Some src => upd2 planned to (v_dt (r_info src)) 1 | None => planned end)
+        (remove_N vid pending) evs'
+  | FNoPlace vid :: evs' =>
+      mem_N vid pending && fix_noplace_ok s planned vid &&
+      fix_under_run s planned (remove_N vid pending) evs'
+  | _ => false
   end.
 
 Fixpoint take_overs (evs : list fevent) : list N * list fevent :=
@@ -582,7 +590,7 @@ Definition fix_accepts (s : snapshot) (retry : nat) (evs : list fevent) : bool :
         | [FDelete vid at_] => mem_N vid (over_vids s) && delete_ok (reps_of s vid) at_
         | _ => false
         end
-    | [] => fix_under_run s retry (under_vids s) None rest
+    | [] => fix_under_run s (fun _ _ => 0%Z) (under_vids s) rest
     end
   end.
 
@@ -627,25 +635,18 @@ Definition trig_evac_cap (s : snapshot) (this : N) : bool :=
         (others_of s this)
   end.
 
-(* k=2  repair keeps no account of the copies it already planned: some server with a free
-   slot has fewer free slots than copies that may be sent to it *)
-Definition all_dts (s : snapshot) : list N := nodup N.eq_dec (flat_map (fun n => map d_type (n_disks n)) s).
-Definition trig_fix_cap (s : snapshot) (retry : nat) : bool :=
-  existsb (fun n => existsb (fun dt =>
-      (0 <? cap_free n dt)%Z &&
-      (cap_max n dt <? w_occ (init_world s) (n_id n) dt
-                       + Z.of_nat ((retry + 1) * length (under_vids s)))%Z) (all_dts s)) s.
+(* (repaired, no trigger any more: repair counts the copies it planned; -retry does not
+   repeat a successful repair; isGoodMove is consulted for replication 000 too) *)
 
-(* k=3  -retry N repeats a SUCCESSFUL repair N more times *)
-Definition trig_fix_retry (retry : nat) : bool := 0 <? retry.
+(* the master's VolumeCount of a disk is at least the number of its volumes of that type
+   (hypothesis of the repair capacity theorem; decidable) *)
+Definition counts_okb (s : snapshot) : bool :=
+  forallb (fun n => forallb (fun d =>
+      match disk_of n (d_type d) with
+      | Some d' => (Z.of_nat (length (vols_of_dt n (d_type d))) <=? d_count d')%Z
+      | None => true end) (n_disks n)) s.
 
-(* k=4  maybeMoveOneVolume skips isGoodMove for replication 000 and only looks at the
-   target's SELECTED volumes: a 000 volume that has a second copy somewhere *)
-Definition trig_coloc_000 (s : snapshot) : bool :=
-  existsb (fun vid => existsb (fun r => (v_rp (r_info r) =? 0)%N) (reps_of s vid) &&
-                      (1 <? length (reps_of s vid))) (all_vids s).
-
-(* k=5  isGoodMove counts data centers and racks globally: with x>=1 and y>=2 a move can
+(* k=2  isGoodMove counts data centers and racks globally: with x>=1 and y>=2 a move can
    take a rack out of the main data center *)
 Definition rp_trig (p : rp) : bool := (1 <=? rp_dc p) && (2 <=? rp_rack p).
 Definition trig_rp_xy (s : snapshot) : bool :=
